@@ -82,6 +82,23 @@ def stepC03 (dflt : Int) (d : Nat) (st : PState d) (op : Json) (obs : Json) : Ex
       let t' := updateAt (fun x => x + v) d (refAt dflt d st.tree p) p
       let nv := st.spec.get dflt p + v
       pure (t', jInt (getLeaf dflt d t' p), st.spec.set p nv, jInt nv)
+    | "assignp" =>
+      -- fiber assignment through the reference at a partial point: the prefix path is created, then the
+      -- sub-fiber there becomes a copy of the source's non-empty part (Mutate.assignF)
+      match d, st.tree with
+      | d' + 1, tr =>
+        match field op "src" with
+        | .error e => throw e
+        | .ok srcJ =>
+          let t1 := refAt dflt (d' + 1) tr p
+          let g : TreeArg Int := { get := fun k => (parseTree k srcJ).toOption }
+          let t' := (mstep dflt d' t1 (.assignF p g)).1
+          match contentOfJson dflt (d' + 1 - p.length) srcJ with
+          | .error e => throw e
+          | .ok srcC =>
+            let spec' : PMap := st.spec.filter (fun e => (stripPrefix p e.1).isNone) ++ srcC.map (fun e => (p ++ e.1, e.2))
+            pure (t', optTreeJson (d' + 1) p t' dflt, spec', Json.null)
+      | 0, _ => throw "assignp at depth 0"
     | "posref" =>
       match d, st.tree, snap with
       | d' + 1, tr, sn =>
@@ -95,7 +112,9 @@ def stepC03 (dflt : Int) (d : Nat) (st : PState d) (op : Json) (obs : Json) : Ex
   let mut st' := { st with tree := mtree, spec := sspec, tags := if st.tags.contains k then st.tags else k :: st.tags }
   -- agreement: output and tree after the step
   if !(treeEq d mtree snap) then st' := fail st' false s!"tree after {k} {p} differs from model"
-  if k == "getprefix" then
+  if k == "assignp" then
+    if mout.compress != out.compress then st' := fail st' false s!"assignp {p}: model {mout.compress} impl {out.compress}"
+  else if k == "getprefix" then
     if mout.compress != out.compress then st' := fail st' false s!"getprefix {p}: model {mout.compress} impl {out.compress}"
     -- spec: content of the returned sub-tree = the contents under the prefix
     let sub ← contentOfJson dflt (d - p.length) out
